@@ -47,6 +47,9 @@ pub enum Scenario {
     /// channel; a sibling task sends `rearms` items in the same event, after the sleep has been registered - the
     /// sleep is reset several times to the deadline it is already registered for
     Rearm { n: usize, d_ns: u64, rearms: usize },
+    /// `n` tasks each hold two sleeps with the same deadline, both polled once; the one registered first is dropped
+    /// (a guard timer that is no longer needed), the other is awaited
+    TwinTimer { n: usize, d_ns: u64 },
 }
 
 #[derive(Debug, Clone, Serialize, Deserialize, PartialEq)]
@@ -83,6 +86,7 @@ impl Trigger {
             Scenario::Captured { n } => *n,
             Scenario::Answered { n, .. } => 3 * n,
             Scenario::Rearm { n, .. } => 3 * n,
+            Scenario::TwinTimer { n, .. } => 2 * n,
         }
     }
 }
@@ -177,7 +181,7 @@ impl Stormy {
         let (local, mixed) = (t.local, t.mixed);
         let local_of = move |k: usize| if mixed { k % 2 == 1 } else { local };
         let armed = match &t.scenario {
-            Scenario::Burst { .. } | Scenario::Answered { .. } | Scenario::Rearm { .. } => Armed::None,
+            Scenario::Burst { .. } | Scenario::Answered { .. } | Scenario::Rearm { .. } | Scenario::TwinTimer { .. } => Armed::None,
             Scenario::Notify { n } => {
                 let notify = Arc::new(Notify::new());
                 for k in 0..*n {
@@ -338,6 +342,23 @@ impl Stormy {
                     self.spawned += 1;
                 }
             }
+            Scenario::TwinTimer { n, d_ns } => {
+                for k in 0..*n {
+                    let d_ns = *d_ns;
+                    let h = spawn_any(t.local, async move {
+                        let mut guard = Box::pin(sleep(Duration::from_nanos(d_ns)));
+                        let mut own = std::pin::pin!(sleep(Duration::from_nanos(d_ns)));
+                        let _ = futures::poll!(guard.as_mut());
+                        let _ = futures::poll!(own.as_mut());
+                        drop(guard);
+                        own.await;
+                        log(m, ti, k, at + d_ns);
+                        done();
+                    });
+                    current().join(h);
+                    self.spawned += 1;
+                }
+            }
             Scenario::Rearm { n, d_ns, rearms } => {
                 for k in 0..*n {
                     let (d_ns, rearms) = (*d_ns, *rearms);
@@ -481,7 +502,7 @@ fn expected_tasks(case: &Case) -> u64 {
         .iter()
         .flatten()
         .map(|t| match &t.scenario {
-            Scenario::Burst { n, .. } | Scenario::Notify { n } | Scenario::Captured { n } | Scenario::Answered { n, .. } | Scenario::Rearm { n, .. } => *n as u64,
+            Scenario::Burst { n, .. } | Scenario::Notify { n } | Scenario::Captured { n } | Scenario::Answered { n, .. } | Scenario::Rearm { n, .. } | Scenario::TwinTimer { n, .. } => *n as u64,
             Scenario::Chain { depth, .. } => *depth as u64,
             Scenario::Drain { .. } => 1,
         })
@@ -551,7 +572,8 @@ pub fn gen_trigger(rng: &mut Rng, time_ns: u64, local: bool, big: bool) -> Trigg
         }
     };
     let marathon = !local && rng.chance(1, 300);
-    let scenario = match rng.below(11) {
+    let scenario = match rng.below(12) {
+        11 => Scenario::TwinTimer { n: 1 + rng.usize_below(6), d_ns: *rng.pick(&[1_000_000u64, SEC, 6 * SEC]) },
         10 => Scenario::Rearm { n: 1 + rng.usize_below(6), d_ns: *rng.pick(&[1_000_000u64, SEC, 6 * SEC]), rearms: 1 + rng.usize_below(3) },
         // one task that stays runnable for several hundred thousand polls within one instant (takes the executor
         // a noticeable amount of wall-clock time: nothing but virtual time may decide when it continues)
@@ -617,7 +639,7 @@ pub fn gen_case(rng: &mut Rng, known_shape: bool) -> Case {
         let mut t = gen_trigger(rng, at, local, false);
         let completes_in_instant = match &t.scenario {
             Scenario::Burst { sleep_ns, .. } => *sleep_ns == 0,
-            Scenario::Captured { .. } | Scenario::Answered { .. } | Scenario::Rearm { .. } => false,
+            Scenario::Captured { .. } | Scenario::Answered { .. } | Scenario::Rearm { .. } | Scenario::TwinTimer { .. } => false,
             _ => true,
         };
         if completes_in_instant && t.time_ns > 0 {
@@ -679,6 +701,7 @@ pub fn cmd(args: &Args) -> Report {
                 Scenario::Captured { .. } => "scenarios_message_consumed_by_processing_element",
                 Scenario::Answered { .. } => "scenarios_timeout_answered_within_the_instant_then_sleep",
                 Scenario::Rearm { .. } => "scenarios_sleep_rearmed_to_its_own_deadline",
+                Scenario::TwinTimer { .. } => "scenarios_twin_timers_first_dropped",
             };
             rep.count(key, 1);
             if t.local {
